@@ -156,7 +156,10 @@ func genC08Val(r *Rng, kind string, mysql string) c08Val {
 		case 0:
 			s = ""
 		case 1:
-			s = []string{"test", "abcd", "YWJj", "AAAA", "Zm9v", "dGVzdA==", "seat", "1234", "true"}[r.Intn(9)] // valid base64
+			// valid base64 — Go's decoder also skips CR and LF, so a text with line breaks among base64 characters
+			// is "valid base64" for the reader whatever its length
+			s = []string{"test", "abcd", "YWJj", "AAAA", "Zm9v", "dGVzdA==", "seat", "1234", "true",
+				"John\n", "abcd\r\n", "abcd\nefgh", "\nYWJj", "ab\ncd", "\n", "\r\n\r\n"}[r.Intn(16)]
 		case 2:
 			s = []string{"123", "-1", "1e9", "0.5", "null", "true"}[r.Intn(6)] // look like numbers / JSON literals
 		case 3:
